@@ -305,7 +305,30 @@ def rule_K_NAMES(ctx, only=("evidence_value", "narsese_options")):
             ctx.ob("K-NAMES", "EvidentNumber::%s = from(%s)" % (it["name"], want), lit is not None and float(lit) == want, "literal %r" % (lit,))
         if it["name"] in ("has_sentence", "has_task") and "narsese_options" in p:
             n += 1
-            pf = sorted(set(pattern_fields(it["body"])))
+            def tested(item, depth=0):
+                """slots whose PRESENCE the function tests: `Self { x: Some(..), .. }` patterns, `self.x.is_some()` conjuncts, and what a called
+                has_* sibling tests; None if anything makes the result depend on more than a conjunction of presence tests"""
+                got = set(pattern_fields(item["body"]))
+                for n_ in hir.walk(item["body"]):
+                    if n_.get("k") == "Binary" and n_.get("op") in ("||", "Or"):
+                        return None
+                    if n_.get("k") == "Unary" and n_.get("op") in ("!", "Not"):
+                        return None
+                    if n_.get("k") == "MethodCall":
+                        rp_ = field_path(n_["recv"])
+                        if n_["method"] == "is_some" and rp_ and len(rp_) == 2 and rp_[0] == "self":
+                            got.add(rp_[1])
+                        elif n_["method"] == "is_none":
+                            return None
+                        elif n_["method"] in ("has_sentence", "has_task") and rp_ == ("self",) and depth < 2:
+                            sib = [i2 for p2, i2 in f.hir.items() if i2["name"] == n_["method"] and "narsese_options" in p2]
+                            sub = tested(sib[0], depth + 1) if len(sib) == 1 else None
+                            if sub is None:
+                                return None
+                            got |= sub
+                return got
+            pf_ = tested(it)
+            pf = sorted(pf_) if pf_ is not None else None
             want = ["punctuation", "term"] if it["name"] == "has_sentence" else ["budget", "punctuation", "term"]
             ctx.ob("K-NAMES", "NarseseOptions::%s <=> %s present" % (it["name"], want), pf == want, "tests %s" % pf)
     ctx.floor("K-NAMES instances", n, 2)
